@@ -66,6 +66,17 @@ impl RuleTrait for NumRule {
     }
 }
 
+/// rule D: the word 'dozen' is the number 12
+struct ConstRule;
+impl RuleTrait for ConstRule {
+    fn name(&self) -> String {
+        "D".to_string()
+    }
+    fn call(&self, _: &SmartCalcConfig, _: &BTreeMap<String, TokenType>) -> Option<TokenType> {
+        Some(TokenType::Number(12.0, NumberType::Decimal))
+    }
+}
+
 /// rule T: n * 100 + m
 struct PairRule;
 impl RuleTrait for PairRule {
@@ -108,6 +119,8 @@ fn rule(id: char) -> (Vec<String>, Rc<dyn RuleTrait>) {
         'A' => (vec!["foo {NUMBER:n}".into()], Rc::new(NumRule { name: "A", add: 100.0, decline: Some(7.0) })),
         'B' => (vec!["foo {NUMBER:n}".into(), "bar {NUMBER:n}".into()], Rc::new(NumRule { name: "B", add: 200.0, decline: None })),
         'C' => (vec!["{NUMBER:count} {TEXT:coin}".into()], Rc::new(Coin)),
+        // a pattern of a single token: the rewrite does not shorten the line
+        'D' => (vec!["dozen".into()], Rc::new(ConstRule)),
         // literal words that are operator aliases of the language ('times', 'sum'): a pattern is read like a line
         'T' => (vec!["{NUMBER:n} times {NUMBER:m}".into(), "sum {NUMBER:n} {NUMBER:m}".into()], Rc::new(PairRule)),
         // same name as A, other pattern (with a capital letter) and result
@@ -120,6 +133,7 @@ fn rule_name(id: char) -> &'static str {
         'A' | 'Q' => "A",
         'B' => "B",
         'T' => "T",
+        'D' => "D",
         _ => "C",
     }
 }
@@ -305,7 +319,7 @@ impl Model {
 
 /// "2 dm to cm" comes first: it has the same (source index, target index, amount) as
 /// "2 athree to atwo" and "2 bthree to btwo" in the two user families
-const PROBES_EN: [&str; 28] = ["2 dm to cm", "foo 5", "foo 7", "bar 5", "baz 5", "FOO 5", "Bar 5", "BAZ 5", "foo 5 + 1", "foo 7 + bar 1", "3 btc", "3 xyz", "3 btc to try", "10 usd to try", "1 hour 30 minutes", "10% of 200", "2 aone to atwo", "20 aone to athree", "3 athree to aone", "1 atwo to aone", "2 athree to atwo", "5 kb to byte", "24 btwo to bfour", "1 bfour to btwo", "8 btwo to bthree", "2 bthree to btwo", "4 times 5", "sum 7 8"];
+const PROBES_EN: [&str; 34] = ["2 dm to cm", "foo 5", "foo 7", "bar 5", "baz 5", "FOO 5", "Bar 5", "BAZ 5", "foo 5 + 1", "foo 7 + bar 1", "3 btc", "3 xyz", "3 btc to try", "10 usd to try", "1 hour 30 minutes", "10% of 200", "2 aone to atwo", "20 aone to athree", "3 athree to aone", "1 atwo to aone", "2 athree to atwo", "5 kb to byte", "24 btwo to bfour", "1 bfour to btwo", "8 btwo to bthree", "2 bthree to btwo", "4 times 5", "sum 7 8", "dozen", "dozen dozen", "dozen + dozen + 1", "dozen usd to try", "n = 20\nn aone to athree", "n = 24\nn btwo to bfour"];
 const PROBES_TR: [&str; 4] = ["foo 5", "foo 7", "bar 5", "2 gün"];
 
 fn probe_full(calc: &SmartCalc) -> Vec<(String, Run)> {
@@ -419,9 +433,9 @@ impl Prop for C18 {
         f.push(Family::new(
             "alias-word-rules",
             Mode::Full,
-            "every sequence of 0..=3 operations over [add T (patterns '{NUMBER} times {NUMBER}' and 'sum {NUMBER} {NUMBER}': literal words that are operator aliases), delete T, add A, delete A], on a plain calculator and behind the registration of both user families (t1 with items 1-3, t2 with items 2-4): the rule fires on '4 times 5' and 'sum 7 8' while it is registered and the built-in meaning returns when it is deleted; with both user families present the same-index, same-amount conversions of different families keep their own values",
+            "every sequence of 0..=3 operations over [add T (patterns '{NUMBER} times {NUMBER}' and 'sum {NUMBER} {NUMBER}': literal words that are operator aliases), delete T, add A, delete A, add D (the one-token pattern 'dozen'), delete D], on a plain calculator and behind the registration of both user families (t1 with items 1-3, t2 with items 2-4): the rule fires on '4 times 5' and 'sum 7 8' while it is registered and the built-in meaning returns when it is deleted; with both user families present the same-index, same-amount conversions of different families keep their own values",
             move |ch| {
-                let alphabet = [Op::AddRule("en".into(), 'T'), Op::DelRule("en".into(), "T".into()), Op::AddRule("en".into(), 'A'), Op::DelRule("en".into(), "A".into())];
+                let alphabet = [Op::AddRule("en".into(), 'T'), Op::DelRule("en".into(), "T".into()), Op::AddRule("en".into(), 'A'), Op::DelRule("en".into(), "A".into()), Op::AddRule("en".into(), 'D'), Op::DelRule("en".into(), "D".into())];
                 let mut ops = Vec::new();
                 if ch.flag() {
                     // both user families complete: their items share indices with each other and with the built-in families
@@ -657,6 +671,24 @@ impl C18 {
         };
         for (p, r) in observed.iter() {
             let (lang, line) = p.split_once('|').unwrap();
+            if lang == "en" && line.starts_with("dozen") && m.rules.iter().any(|(l, id)| l == "en" && *id == 'D') {
+                let want: Option<Val> = match line {
+                    "dozen" => Some(Val::Number(12.0, Base::Dec)),
+                    "dozen dozen" => Some(Val::Number(24.0, Base::Dec)),
+                    "dozen + dozen + 1" => Some(Val::Number(25.0, Base::Dec)),
+                    _ => None,
+                };
+                if let Some(w) = want {
+                    match r.single() {
+                        Some(Slot::Ok { val, .. }) if obs::val_close(val, &w, 1e-9) => {}
+                        _ => {
+                            v.expected = format!("{} -> {:?}", p, w);
+                            v.violation = Some(format!("probe {:?}: the one-word rule survives but the line does not evaluate as if every 'dozen' were 12", p));
+                            return v;
+                        }
+                    }
+                }
+            }
             if lang == "en" && (line == "4 times 5" || line == "sum 7 8") && m.rules.iter().any(|(l, id)| l == "en" && *id == 'T') {
                 let w = if line == "4 times 5" { 405.0 } else { 708.0 };
                 match r.single() {
@@ -698,6 +730,7 @@ impl C18 {
                 "3 athree to aone" => Some((3.0, 3, 1)),
                 "1 atwo to aone" => Some((1.0, 2, 1)),
                 "2 athree to atwo" => Some((2.0, 3, 2)),
+                "n = 20\nn aone to athree" => Some((20.0, 1, 3)),
                 _ => None,
             };
             let chain2: Option<(f64, usize, usize)> = match line {
@@ -705,11 +738,12 @@ impl C18 {
                 "1 bfour to btwo" => Some((1.0, 4, 2)),
                 "8 btwo to bthree" => Some((8.0, 2, 3)),
                 "2 bthree to btwo" => Some((2.0, 3, 2)),
+                "n = 24\nn btwo to bfour" => Some((24.0, 2, 4)),
                 _ => None,
             };
             if let (Some((a, from, to)), "en") = (chain2, lang) {
                 if let Some(w) = m.convert2(a, from, to) {
-                    match r.single() {
+                    match r.last() {
                         Some(Slot::Ok { val: Val::Unit(x, g, i), .. }) if obs::close(*x, w, 1e-9) && g == "t2" && *i == to => {}
                         _ => {
                             v.expected = format!("{} -> Unit({}, t2, {})", line, w, to);
@@ -721,7 +755,7 @@ impl C18 {
             }
             if let (Some((a, from, to)), "en") = (chain, lang) {
                 if let Some(w) = m.convert(a, from, to) {
-                    match r.single() {
+                    match r.last() {
                         Some(Slot::Ok { val: Val::Unit(x, g, i), .. }) if obs::close(*x, w, 1e-9) && g == "t1" && *i == to => {}
                         _ => {
                             v.expected = format!("{} -> Unit({}, t1, {})", line, w, to);
@@ -758,6 +792,7 @@ impl C18 {
                             'B' => low.contains("foo") || low.contains("bar"),
                             'C' => low.contains("btc"),
                             'T' => low.contains("times") || low.contains("sum"),
+                            'D' => low.contains("dozen"),
                             _ => low.contains("baz"),
                         }
                 });
